@@ -52,22 +52,25 @@ def lazy_jobs(thorough):
         J.append({"name": name, "module": "Lazy", "cfg": cfg, "expect": expect, "env": env, "workers": workers, "kind": kind})
     F, K = L.ALL_FORMS, L.ALL_KINDS
     job("A: acyclic, 2 symbols, all statement kinds, <= 3 statements",
-        L.cfg(["a", "b"], F, K, 3, False, FULL_A, ["SettledIsStable", "Terminates"]), workers=6)
+        L.cfg(["a", "b"], F, K, 3, False, FULL_A, ["SettledIsStable", "Terminates"], **({} if thorough else {"ks": "{2}", "mulks": "{2}"})), workers=6)
     job("B: all graphs, 2 symbols, definitions + .blkb + labels, <= 2 statements",
         L.cfg(["a", "b"], F, ["def", "label", "blkb"], 2, True, SAFE_B, ["SettledIsStable"]), workers=6)
     job("B3: all graphs, 3 symbols, s | s/k, <= 3 definitions",
         L.cfg(["a", "b", "c"], ["ref", "div"], ["def"], 3, True, SAFE_B, ["SettledIsStable"]))
     job("CE Terminates (all graphs)", L.cfg(["a", "b"], ["ref"], ["def"], 2, True, [], ["Terminates"]), expect="Terminates", workers=2)
-    job("CE NoSpin (all graphs)", L.cfg(["a", "b"], ["ref", "const"], ["def"], 2, True, ["NoSpin"]), expect="NoSpin", workers=2)
+    if thorough:
+        job("CE NoSpin (all graphs)", L.cfg(["a", "b"], ["ref", "const"], ["def"], 2, True, ["NoSpin"]), expect="NoSpin", workers=2)
     job("CE NoInternalError (all graphs)", L.cfg(["a"], ["ref", "div"], ["def", "label", "blkb"], 2, True, ["NoInternalError"]),
         expect="NoInternalError", workers=2)
-    job("CE NoDivergence (all graphs)", L.cfg(["a"], ["add"], ["def"], 1, True, ["NoDivergence"]), expect="NoDivergence", workers=2)
+    if thorough:
+        job("CE NoDivergence (all graphs)", L.cfg(["a"], ["add"], ["def"], 1, True, ["NoDivergence"]), expect="NoDivergence", workers=2)
     job("I: exception injected at every point of evaluation",
         L.cfg(["a", "b"], ["ref", "add", "div"], ["def", "blkb", "label"], 2, True, ["TypeOK", "Balanced"], inject=True))
     job("F1: broken engine (depth leak) must violate Balanced",
         L.cfg(["a", "b"], ["ref", "const"], ["def"], 2, False, ["Balanced"], fault="depth-leak"), expect="Balanced", workers=2, kind="selftest")
-    job("F2: broken engine (awaiting-stack leak) must violate Balanced",
-        L.cfg(["a", "b"], ["ref", "const"], ["def"], 2, False, ["Balanced"], fault="stack-leak"), expect="Balanced", workers=2, kind="selftest")
+    if thorough:
+        job("F2: broken engine (awaiting-stack leak) must violate Balanced",
+            L.cfg(["a", "b"], ["ref", "const"], ["def"], 2, False, ["Balanced"], fault="stack-leak"), expect="Balanced", workers=2, kind="selftest")
     if thorough:
         job("A3: acyclic, 3 symbols, definitions only, <= 3 statements",
             L.cfg(["a", "b", "c"], F, ["def"], 3, False, FULL_A, ["SettledIsStable", "Terminates"], ks="{2}", mulks="{2}"), workers=8)
@@ -96,7 +99,7 @@ def grammar_jobs(thorough, seed):
         job("G1: every 1-statement program, <= 3 expansions, <= 1 planted fault", gcfg(1, 1, 3, 0, 1, False), exhaustive=True)
         job("G2: every 2-statement program, <= 3 expansions", gcfg(2, 2, 3, 0, 0, False), exhaustive=True)
         job("GM: every single token mutation of every 1-expansion program", gcfg(1, 1, 1, 1, 0, False, charmuts=False), exhaustive=True)
-        job("S1: simulated 1-4 statements, <= 3 mutations", gcfg(1, 4, 100000, 3, 1, True), sim=2500, depth=400, sd=seed * 7 + 1, workers=1)
+        job("S1: simulated 1-4 statements, <= 3 mutations", gcfg(1, 4, 100000, 3, 1, True), sim=1800, depth=400, sd=seed * 7 + 1, workers=1)
         job("S2: simulated 5-25 statements, <= 3 mutations", gcfg(5, 25, 100000, 3, 2, True), sim=300, depth=1500, sd=seed * 7 + 2, workers=1)
         job("S3: simulated 26-60 statements, <= 3 mutations", gcfg(26, 60, 100000, 3, 2, True), sim=120, depth=3000, sd=seed * 7 + 3, workers=1)
     else:
@@ -276,33 +279,42 @@ def main(run):
         run.note("grammar_classes_never_generated", unused)
     items = sorted(((i, t) for t, i in texts.index.items()))
     bytext = {i: t for i, t in items}
-    cpu = 1.0
+    cpu = 1.0 if thorough else 0.6
     t0 = time.time()
     # ---------------------------------------------------------------- runs -> traces (folded batch by batch)
+    # thorough: every text under all three handlers.  quick: every text under the collecting handler, every third text
+    # also under the real bare and graphical handlers (a run that is already bad is not repeated)
     shapes = {}                        # trace (JSON text) -> id
     shape_n = collections.Counter()
     raw = []                           # the first raw_cap traces, validated one by one
     raw_cap = 100000 if thorough else 25000
     suspects = []                      # (text idx, handler, result, trace) of runs that are not good by the harness' own reading
     oc = collections.Counter()
+    per_handler = collections.Counter()
     n_runs = 0
     batch = 150000
-    for lo in range(0, len(items), batch):
-        part = items[lo:lo + batch]
-        out = pmap(G.run_chunk, [(c, G.HANDLERS, cpu) for c in G.chunks(part, 60 if not thorough else 150)])
-        for ch in out:
-            for idx, res in ch:
-                for h, o in zip(G.HANDLERS, res):
-                    sg = trace_sig(o)
-                    shapes.setdefault(sg, len(shapes))
-                    shape_n[sg] += 1
-                    n_runs += 1
-                    if len(raw) < raw_cap:
-                        raw.append(sg)
-                    oc[o[0] if not (o[0] == "error" and o[3] == 0) else "silent-failure"] += 1
-                    if not G.is_good(o):
-                        suspects.append((idx, h, o, sg))
-        del out
+    bad_idx = set()
+    for handlers, subset in ((("collect",), None), (("bare", "graphical"), 1 if thorough else 3)):
+        sel = [it for it in items if (subset is None or it[0] % subset == 0) and it[0] not in bad_idx]
+        for lo in range(0, len(sel), batch):
+            part = sel[lo:lo + batch]
+            out = pmap(G.run_chunk, [(c, handlers, cpu) for c in G.chunks(part, 80 if not thorough else 150)])
+            for ch in out:
+                for idx, res in ch:
+                    for h, o in zip(handlers, res):
+                        sg = trace_sig(o)
+                        shapes.setdefault(sg, len(shapes))
+                        shape_n[sg] += 1
+                        n_runs += 1
+                        per_handler[h] += 1
+                        if len(raw) < raw_cap:
+                            raw.append(sg)
+                        oc[o[0] if not (o[0] == "error" and o[3] == 0) else "silent-failure"] += 1
+                        if not G.is_good(o):
+                            suspects.append((idx, h, o, sg))
+                            bad_idx.add(idx)
+            del out
+    run.note("runs_per_handler", dict(per_handler))
     run.note("assembling_wall_s", round(time.time() - t0, 1))
     verdict = validate_traces(run, shapes, raw, "Outcome.tla: traces of the grammar runs")
     run.add_traces(n_runs)
@@ -324,7 +336,7 @@ def main(run):
     run.note("rejected_traces_texts", len(bad))
     # confirmation in a process of its own (5 s of CPU).  Hangs are expensive to confirm: those of texts with a cyclic
     # definition (the open finding) and, beyond a cap, the longest of the others are reported from the first run
-    cyc_cap = 40 if thorough else 6
+    cyc_cap = 40 if thorough else 3
     hang_cap = 100 if thorough else 32
     for idx, (h, o, clause) in bad.items():
         if clause == "malformed":
@@ -392,7 +404,7 @@ def main(run):
     run.exhaustive = False
     run.assumptions += ["the renderer harness/grammar.py maps token classes to text (trusted)",
                         "bounds of DESIGN section 4: repeat/align/shift counts are small literals (texts outside are dropped and counted)",
-                        "hang = 1 s of CPU time without finishing in the first pass, confirmed with 5 s of CPU time in a fresh process",
+                        "hang = 1 s (quick: 0.6 s) of CPU time without finishing in the first pass, confirmed with 5 s of CPU time in a fresh process",
                         "Lazy.tla: MaxHeap/MaxStk/MaxMag bound the model; 'diverged' predictions are confirmed by replay"]
     run.note("wall_total_s", round(time.time() - t_start, 1))
 
@@ -451,12 +463,12 @@ def lazy_part(run, lazy_res, thorough):
     import random
     rnd = random.Random(run.seed)
     rnd.shuffle(hang)
-    hang_n = len(hang) if thorough and len(hang) <= 600 else min(len(hang), 600 if thorough else 48)
+    hang_n = len(hang) if thorough and len(hang) <= 600 else min(len(hang), 600 if thorough else 24)
     hang_sel = hang[:hang_n]
     run.note("lazy_programs_exported", len(recs))
     run.note("lazy_predicted", dict(collections.Counter(r["outcome"] for r in recs)))
     run.note("lazy_hang_predictions_replayed", hang_n)
-    tasks = [(c, 2.0) for c in G.chunks(term, 100)] + [(c, 1.0) for c in G.chunks(hang_sel, 3)]
+    tasks = [(c, 2.0) for c in G.chunks(term, 100)] + [(c, 1.0 if thorough else 0.6) for c in G.chunks(hang_sel, 3)]
     mism = 0
     agree = collections.Counter()
     groups = {}            # (what, pred, real, acyclic) -> [count, shortest source, o, tags, rec]
